@@ -153,7 +153,7 @@ def run_case(c, R):
     R.check(isinstance(h, np.ndarray) and h.shape == tuple(fr.shape), 'return-shape')
     R.check(np.array_equal(fr.data, h), 'helper-data-delta-differs-from-return')
     # sub-step count for the smeared general signal
-    ratio = abs(drift) / fr.unit_drift_rate          # the same two floats the property names: |drift| / unit drift
+    ratio = abs(drift) / (g['df'] / g['dt'])          # |drift| / unit drift, the unit drift from the resolutions the frame was built with
     ns = [max(1, math.ceil(ratio))]
     if ratio != round(ratio) and abs(ratio - round(ratio)) < 1e-9 and round(ratio) >= 1:
         # not representable as an integer but within rounding of one: another evaluation order may land on the other side
